@@ -224,7 +224,7 @@ def build_harness(which):
         # hextb as the repository builds it (guard off, real main) on the tb model, for the C06 second layer.
         d, mo = b.model_objs("tb")
         mh = sorted(glob.glob(d + "/*.h"))
-        flags = [f for f in BASE_FLAGS if f != "-DHEX_VERIF"]
+        flags = [f for f in BASE_FLAGS if f not in ("-DHEX_VERIF", "--coverage", "-DVERIF_COV")]
         cmd = [CXX] + flags + ["-O1", "-I" + d, "-c", os.path.join(REPO, "hextb.cpp")]
         key = sha("cc-real", " ".join(cmd), files_hash([os.path.join(REPO, "hextb.cpp")] + rh + mh))
         obj = os.path.join(BUILD, "obj", key + ".o")
@@ -242,13 +242,13 @@ def build_harness(which):
         keyl = sha("link-real", "hextb", " ".join(sorted(objs)))
         exe = os.path.join(BUILD, "bin", "realhextb-" + keyl)
         if not os.path.exists(exe):
-            run([CXX, "-o", exe] + objs + ["-pthread"])
+            run([CXX] + LINK_SAN + ["-o", exe] + objs + ["-pthread"])
         touch(exe)
         return exe
     if which == "realtools":
         # The four executables as the repository builds them (guard off, real main), for the
         # second-layer cross-checks of C14/C11.  Returns the directory holding them.
-        flags = [f for f in BASE_FLAGS if f != "-DHEX_VERIF"]
+        flags = [f for f in BASE_FLAGS if f not in ("-DHEX_VERIF", "--coverage", "-DVERIF_COV")]
         outdir_key = sha("realtools", files_hash(rh + [os.path.join(REPO, t + ".cpp") for t in ("hexasm", "xcmp", "xrun", "hexsim", "hex")]))
         outdir = os.path.join(BUILD, "realtools-" + outdir_key)
         if not os.path.exists(os.path.join(outdir, ".done")):
